@@ -382,6 +382,13 @@ pub fn run(input: &Value) -> Case {
         Some(b) => json!(String::from_utf8_lossy(b)),
         None => json!("panic"),
     };
+    // known finding: a Char that opens a control sequence / string (ESC, C1 DCS SOS CSI OSC PM APC)
+    let introducer = cmd_values.iter().any(|c| {
+        c["t"] == "Char" && matches!(c["c"].as_u64().unwrap_or(0), 27 | 0x90 | 0x98 | 0x9b | 0x9d | 0x9e | 0x9f)
+    });
+    if introducer {
+        j["known_class"] = json!(["C05-char-introducer"]);
+    }
     let fixed = matches!(
         kind.as_str(),
         "FaceGet" | "CursorGet" | "CursorSave" | "CursorRestore" | "EraseLineLeft" | "EraseLineRight" | "EraseLine"
@@ -395,6 +402,7 @@ pub fn run(input: &Value) -> Case {
             format!("depth={}", depth),
             format!("kitty={}", caps.kitty_keyboard),
             format!("res={}", if out.is_some() { "bytes" } else { "panic" }),
+            format!("known={}", introducer),
         ],
         nontrivial: !fixed,
     }
@@ -478,14 +486,13 @@ fn rand_text(rng: &mut Rng, allow_c0: bool) -> String {
 fn rand_cmd(rng: &mut Rng) -> Value {
     match rng.below(24) {
         0 => {
-            let c = match rng.below(6) {
+            let c = match rng.below(8) {
                 0 => *rng.pick(&[0u32, 7, 8, 9, 10, 13, 24, 26, 28, 31, 32, 126, 160, 0x7ff, 0x800, 0xd7ff, 0xe000, 0xffff, 0x10000, 0x10ffff]),
-                1 => {
-                    let c = rng.below(32) as u32;
-                    if c == 27 { 10 } else { c }
-                }
-                2 => 0x10000 + rng.below(0x100000) as u32,
-                3 => 0xa0 + rng.below(0xd700) as u32,
+                1 => rng.below(32) as u32,                       // every C0 control, ESC included
+                2 => 0x7f + rng.below(0x21) as u32,              // DEL and every C1 control
+                3 => *rng.pick(&[27u32, 0x90, 0x98, 0x9b, 0x9d, 0x9e, 0x9f, 0x9c, 0x7f, 0x85]),
+                4 => 0x10000 + rng.below(0x100000) as u32,
+                5 => 0xa0 + rng.below(0xd700) as u32,
                 _ => 0x20 + rng.below(0x5f) as u32,
             };
             json!({"t": "Char", "c": c})
@@ -526,11 +533,7 @@ fn rand_cmd(rng: &mut Rng) -> Value {
                     }
                 })
                 .collect();
-            if names.len() == 1 && names[0].is_empty() {
-                json!({"t": "Termcap", "names": ["TN"]})
-            } else {
-                json!({"t": "Termcap", "names": names})
-            }
+            json!({"t": "Termcap", "names": names})
         }
         18 | 19 => {
             let name = match rng.below(3) {
@@ -640,6 +643,14 @@ pub fn generate(rng: &mut Rng, n: usize, tier: &str) -> Vec<Value> {
         v.push(json!({"caps": caps, "cmd": {"t": "Termcap", "names": [format!("a{}", s), s]}}));
     }
     v.push(json!({"caps": caps, "cmd": {"t": "Termcap", "names": []}}));
+    v.push(json!({"caps": caps, "cmd": {"t": "Termcap", "names": [""]}}));
+    v.push(json!({"caps": caps, "cmd": {"t": "Termcap", "names": ["", ""]}}));
+    // every control character as Char (C0, DEL, C1); the seven sequence introducers are the known class
+    for c in (0u32..32).chain(0x7f..0xa0) {
+        v.push(json!({"caps": caps, "cmd": {"t": "Char", "c": c}}));
+    }
+    v.push(json!({"caps": caps, "cmds": [{"t": "Char", "c": 27}, {"t": "Char", "c": 99}]}));
+    v.push(json!({"caps": caps, "cmds": [{"t": "Char", "c": 0x9b}, {"t": "Char", "c": 50}, {"t": "Char", "c": 74}]}));
     v.push(json!({"caps": caps, "cmd": {"t": "Termcap", "names": ["", "Co"]}}));
     v.push(json!({"caps": caps, "cmd": {"t": "Termcap", "names": ["\u{e9}\u{20ac}\u{1f600}", "TN"]}}));
     // (f) random commands under random capabilities; every fifth case is a stream of 2..6 commands
